@@ -137,6 +137,15 @@ CHECKS.update({
     ),
 })
 
+CHECKS.update({
+    "C18": (
+        "Hypothesis program x format generator; oracle: polynomial handed to the modelling library (pyqubo test double) evaluated on all assignments vs own count of true return bits; decode_samples round trip",
+        "For generated programs and every offered format the returned object is evaluated on all assignments of its variables: the input projections of its minimisers must be exactly the inputs with the fewest true return bits (energy 0 at zeros), variables must be argument bits / _ret bits / declared auxiliaries and cover every bit the energy depends on, all formats must agree per input; decode_samples must spell the sample's input bits in the argument types. Sampled over programs (<=7 input bits), exhaustive over assignments.",
+        "pyqubo/dimod are absent from the sealed sandbox: a test double implementing pyqubo's documented algebra is used, so what is verified is qlasskit's side of the interface; functions with constant return bits are rejected by the (strict) constructors and only counted.",
+        "DESIGN.md section 3 C18",
+    ),
+})
+
 NOT_YET = "check not built yet in this session (work in progress; see DESIGN.md section 3)"
 
 
